@@ -31,16 +31,21 @@ class Unprovable(Exception):
 
 
 class St:
-    __slots__ = ('store', 'pc', 'obls', 'notes')
+    __slots__ = ('store', 'pc', 'obls', 'notes', 'iters')
 
-    def __init__(self, store=None, pc=None, obls=None, notes=None):
+    def __init__(self, store=None, pc=None, obls=None, notes=None, iters=None):
         self.store = store if store is not None else {}
         self.pc = pc if pc is not None else []
         self.obls = obls if obls is not None else []
         self.notes = notes if notes is not None else []
+        self.iters = iters if iters is not None else {}
 
     def copy(self):
-        return St(dict(self.store), list(self.pc), list(self.obls), list(self.notes))
+        return St(dict(self.store), list(self.pc), list(self.obls), list(self.notes), dict(self.iters))
+
+
+class UnrollFail(Exception):
+    pass
 
 
 class Frame:
@@ -114,6 +119,9 @@ class Ev:
         self.paths = 0
         self.all_obls = []       # every obligation met on any explored path (including paths that end in the panic)
         self.entry_generics = set()
+        self.unrolling = set()
+        self.unrolled = []
+        self.unroll_work = 0
         self.frames = {}
         self.abstract = {}       # local fn path -> name: treat calls as uninterpreted pure functions
 
@@ -193,15 +201,41 @@ class Ev:
     def run(self, fr, b, st, pred):
         li = self.loopinfo(fr.fn)
         if pred is not None and (pred, b) in li.back_edges:
+            key = (fr.fid, b)
+            if key in self.unrolling:
+                # bounded unrolling attempt: keep going while the iteration count stays small
+                n = st.iters.get(key, 0) + 1
+                self.unroll_work += 1
+                if n > self.UNROLL_MAX or self.unroll_work > 4000:
+                    raise UnrollFail()
+                st.iters[key] = n
+                return self.exec_block(fr, b, st)
             self.loopbacks.setdefault((fr.fid, b), []).append(st)
             return []
         if b in li.headers and (pred is None or pred not in li.body[b]):
             return self.enter_loop(fr, b, st, li)
         return self.exec_block(fr, b, st)
 
+    UNROLL_MAX = 12
+
     def enter_loop(self, fr, h, st, li):
-        W = st
         key = (fr.fid, h)
+        # first try to unroll: loops over a bounded iterator (e.g. splitn(7)) end by themselves on every path
+        if key not in self.unrolling:
+            self.unrolling.add(key)
+            self.unroll_work = 0
+            n_obls, n_extra, n_loops = len(self.all_obls), len(self.extra_obls), len(self.loops)
+            try:
+                outs = self.exec_block(fr, h, st.copy())
+                self.unrolling.discard(key)
+                self.unrolled.append({'fn': fr.fn['path'], 'header': h})
+                return outs
+            except UnrollFail:
+                self.unrolling.discard(key)
+                del self.all_obls[n_obls:]
+                del self.extra_obls[n_extra:]
+                del self.loops[n_loops:]
+        W = st
         for it in range(5):
             saved = self.loopbacks.get(key)
             self.loopbacks[key] = []
